@@ -363,7 +363,8 @@ def fixed_rows(fixed_source, encoding, field_name_and_lengths, line_delimiter="a
         return result
 
     if isinstance(fixed_source, str):
-        fixed_file = io.open(fixed_source, "r", encoding=encoding)
+        # NOTE: Use newline="" to prevent line delimiters from being translated to "\n".
+        fixed_file = io.open(fixed_source, "r", encoding=encoding, newline="")
         is_opened = True
     else:
         fixed_file = fixed_source
